@@ -1,5 +1,5 @@
 from mindsdb_sql.parser.ast.base import ASTNode
-from mindsdb_sql.parser.utils import indent
+from mindsdb_sql.parser.utils import indent, params_to_string
 
 
 class CreateMLEngine(ASTNode):
@@ -32,9 +32,7 @@ class CreateMLEngine(ASTNode):
     def get_string(self, *args, **kwargs):
         using_str = ''
         if self.params is not None:
-            using_ar = [f'{k}={repr(v)}' for k, v in self.params.items()]
-
-            using_str = 'USING ' + ', '.join(using_ar)
+            using_str = 'USING ' + params_to_string(self.params)
 
         out_str = f'CREATE ML_ENGINE {"IF NOT EXISTS" if self.if_not_exists else ""} {self.name.to_string()} FROM {self.handler} {using_str}'
 
